@@ -4,11 +4,12 @@ inputs of a counterexample and evaluate the same contract text with CPython.
 usage: python -m pyvc.replay <replay.json>      (prints a JSON verdict)
 """
 import importlib
+import os
 import json
 import sys
 import traceback
 
-sys.path.insert(0, "/verif")
+sys.path.insert(0, os.path.dirname(os.path.dirname(os.path.abspath(__file__))))
 
 
 class OutsideHarness(Exception):
@@ -200,7 +201,10 @@ if __name__ == "__main__":
     with open(sys.argv[1]) as f:
         data = json.load(f)
     try:
-        res = run_replay(data)
+        # (run the copy of this module that the specs import as pyvc.replay: `python -m` makes this file __main__, whose
+        #  OutsideHarness class is a different object from the one the harnesses raise)
+        from pyvc import replay as _self
+        res = _self.run_replay(data)
     except Exception:
         res = {"error": traceback.format_exc()}
     print("REPLAY-RESULT " + json.dumps(res))
